@@ -9,7 +9,7 @@ for d in seeded/C*-r*/; do
   id=$(basename $d)
   chk=$(python3 -c "import json;print(json.load(open('$d/meta.json'))['caught_by'][0])")
   if [ -n "$(git -C /repo status --porcelain)" ]; then echo "/repo not clean"; exit 2; fi
-  git -C /repo apply "$d/patch.diff" || { echo "$id PATCH-DOES-NOT-APPLY" >> $out; continue; }
+  git -C /repo apply "/verif/${d%/}/patch.diff" || { echo "$id PATCH-DOES-NOT-APPLY" >> $out; continue; }
   res=$(timeout 3000 ./check $chk quick 2>&1)
   git -C /repo checkout -- . 
   n=$(echo "$res" | grep -c "^VIOLATION")
